@@ -314,6 +314,71 @@ func AuditSI(h *History, t *Truth) []sched.Violation {
 			}
 		}
 	}
+	// (3c) the same for a locker that did not commit: while it held the lock (from the return of the locking
+	// call to its own Commit / Rollback call) no other transaction's Commit that wrote the key began and
+	// succeeded (judged in real time: both ends of that Commit lie inside the holding interval)
+	for _, x := range h.Txns {
+		if !x.Mode.Pessimistic || x.Outcome == "committed" || x.EndCallSeq == 0 {
+			continue
+		}
+		for _, l := range x.Locks {
+			if l.Weak {
+				continue
+			}
+			for _, y := range h.Txns {
+				if y == x || y.Outcome != "committed" || y.CommitCallSeq <= l.Seq || y.CommitRetSeq == 0 || y.CommitRetSeq >= x.EndCallSeq {
+					continue
+				}
+				if _, wrote := y.Writes[l.Key]; wrote {
+					add("si:commit-under-pessimistic-lock:locker-still-open", "%s locked %s (for-update ts %d) and had not yet ended, but %s (start=%d) wrote %s and its Commit began and succeeded in between", x.Prog, l.Key, l.ForUpd, y.Prog, y.StartTS, l.Key)
+				}
+			}
+		}
+	}
+	// (3d) a lock that was acquired is held until the locker ends: if Commit of a pessimistic transaction
+	// fails because its pessimistic lock is gone although no other client ever asked the store to expire,
+	// roll back or resolve that transaction, then the lock was lost while the locker was alive (anything
+	// could have committed on the key in between). Needs the RPC log.
+	if len(t.Log) > 0 {
+		for _, x := range h.Txns {
+			if !x.Mode.Pessimistic || x.Outcome != "failed" || !strings.Contains(x.CommitErr, "pessimistic lock not found") {
+				continue
+			}
+			held := false
+			for _, l := range x.Locks {
+				held = held || !l.Weak
+			}
+			if !held {
+				continue
+			}
+			touched := false
+			for _, r := range t.Log {
+				if r.Client == x.Client || r.Req == nil {
+					continue
+				}
+				switch q := r.Req.Req.(type) {
+				case *kvrpcpb.CheckTxnStatusRequest:
+					touched = touched || q.LockTs == x.StartTS
+				case *kvrpcpb.ResolveLockRequest:
+					touched = touched || q.StartVersion == x.StartTS
+					for _, ti := range q.TxnInfos {
+						touched = touched || ti.Txn == x.StartTS
+					}
+				case *kvrpcpb.CleanupRequest:
+					touched = touched || q.StartVersion == x.StartTS
+				case *kvrpcpb.BatchRollbackRequest:
+					touched = touched || q.StartVersion == x.StartTS
+				case *kvrpcpb.PessimisticRollbackRequest:
+					touched = touched || q.StartVersion == x.StartTS
+				case *kvrpcpb.CheckSecondaryLocksRequest:
+					touched = touched || q.StartVersion == x.StartTS
+				}
+			}
+			if !touched {
+				add("si:pessimistic-lock-lost-before-commit", "%s (start=%d) had locked %v successfully, nobody else asked the store to expire / roll back / resolve it, yet its Commit failed with %q: the lock was not held until the locker ended", x.Prog, x.StartTS, x.Locks, x.CommitErr)
+			}
+		}
+	}
 	// (3a) no two committed transactions with overlapping intervals wrote the same key.
 	// For a key that a pessimistic transaction locked before writing it, its interval on that key starts at the
 	// for-update ts of that lock (that is the snapshot it wrote against).
